@@ -17,15 +17,13 @@ import subprocess
 import time
 
 VERIF = os.path.dirname(os.path.dirname(os.path.abspath(__file__)))
-REPLAYS = os.path.join(VERIF, "replays")
-TARGET = os.path.join(VERIF, ".target")
 
 TEST_RE = re.compile(
     r"((?:///[^\n]*\n)+\n*#\[test\]\nfn (kani_concrete_playback_\w+)\(\) \{\n.*?\n\})", re.S)
 
 
-def make_replay_crate(group):
-    src = os.path.join(VERIF, "harness", group)
+def make_replay_crate(group, HARNESS, TARGET):
+    src = os.path.join(HARNESS, group)
     dst = os.path.join(TARGET, "replay", group)
     os.makedirs(dst, exist_ok=True)
     man = open(os.path.join(src, "Cargo.toml")).read()
@@ -37,12 +35,12 @@ def make_replay_crate(group):
     if cur != man:
         open(os.path.join(dst, "Cargo.toml"), "w").write(man)
     if not os.path.exists(os.path.join(dst, "Cargo.lock")):
-        shutil.copy("/repo/Cargo.lock", os.path.join(dst, "Cargo.lock"))
+        shutil.copy(os.path.join(src, "Cargo.lock"), os.path.join(dst, "Cargo.lock"))
     return dst
 
 
-def run_native(group, feats, path, env, release):
-    crate = make_replay_crate(group)
+def run_native(group, feats, path, env, release, HARNESS, TARGET):
+    crate = make_replay_crate(group, HARNESS, TARGET)
     e = dict(env)
     e["RUSTFLAGS"] = e.get("RUSTFLAGS", "") + " --cfg verif_replay"
     e["VERIF_REPLAY_FILE"] = path
@@ -67,7 +65,7 @@ def run_native(group, feats, path, env, release):
                 panics=re.findall(r"panicked at ([^\n]*\n[^\n]*)", out)[:6], out=out[-3000:])
 
 
-def replay_harness(prop, group, feats, res, caps, logdir, env, cargo_kani_base):
+def replay_harness(prop, group, feats, res, caps, logdir, env, cargo_kani_base, HARNESS, TARGET, REPLAYS):
     name = res["name"]
     t0 = time.time()
     cmd = cargo_kani_base(group, feats) + ["--harness", name, "-Z", "concrete-playback",
@@ -75,7 +73,7 @@ def replay_harness(prop, group, feats, res, caps, logdir, env, cargo_kani_base):
     log = os.path.join(logdir, name + ".playback.log")
     with open(log, "w") as out:
         try:
-            subprocess.run(cmd, cwd=os.path.join(VERIF, "harness", group), env=env, stdout=out,
+            subprocess.run(cmd, cwd=os.path.join(HARNESS, group), env=env, stdout=out,
                            stderr=subprocess.STDOUT, timeout=max(3 * caps["timeout"], 3600))
         except subprocess.TimeoutExpired:
             return dict(reproduced=False, why="concrete playback timed out", log=log)
@@ -102,8 +100,8 @@ def replay_harness(prop, group, feats, res, caps, logdir, env, cargo_kani_base):
                 continue
             seen.add(tname)
             f.write(block + "\n")
-    dev = run_native(group, feats, path, env, release=False)
-    rel = run_native(group, feats, path, env, release=True)
+    dev = run_native(group, feats, path, env, False, HARNESS, TARGET)
+    rel = run_native(group, feats, path, env, True, HARNESS, TARGET)
     reproduced = bool(dev.get("ran") and dev.get("failed", 0) > 0)
     return dict(reproduced=reproduced, path=path, tests=len(seen),
                 dev=dict(ran=dev.get("ran"), failed=dev.get("failed"), panics=dev.get("panics")),
@@ -112,14 +110,14 @@ def replay_harness(prop, group, feats, res, caps, logdir, env, cargo_kani_base):
                 playback_s=round(time.time() - t0, 1))
 
 
-def rerun(path, env):
+def rerun(path, env, HARNESS, TARGET):
     head = open(path).readline()
     m = re.match(r"// verif-replay: prop=(\S+) group=(\S+) feats=(\S+) harness=(\S+)", head)
     if not m:
         print("not a replay file:", path)
         return 2
     prop, group, feats, name = m.groups()
-    dev = run_native(group, feats.split(","), os.path.abspath(path), env, release=False)
+    dev = run_native(group, feats.split(","), os.path.abspath(path), env, False, HARNESS, TARGET)
     print(dev.get("out", ""))
     if dev.get("ran") and dev.get("failed", 0) > 0:
         print("VIOLATION property=%s replay=%s" % (prop, path))
